@@ -375,8 +375,8 @@ func ruleR18_3(c *Check) {
 				return nil
 			}
 		}
-		suffix = lenOf(df)
-		inner := unparen(ov)
+		suffix = lenOf(w.Origin(ah, df))
+		inner := unparen(w.Origin(ah, ov))
 		for {
 			c, ok := inner.(*ast.CallExpr)
 			if ok && len(c.Args) == 1 {
@@ -855,7 +855,7 @@ func ruleR18_4(c *Check) {
 	})
 	okCipher, okIV := false, false
 	isLenOf := func(e ast.Expr, o types.Object) bool {
-		c, ok := unparen(e).(*ast.CallExpr)
+		c, ok := unparen(w.from(e)).(*ast.CallExpr)
 		if !ok || !isBuiltin(w, c, "len") || len(c.Args) != 1 {
 			return false
 		}
@@ -901,7 +901,7 @@ func ruleR18_4(c *Check) {
 			return true
 		}
 		cut := func(e ast.Expr) bool {
-			be, ok := unparen(e).(*ast.BinaryExpr)
+			be, ok := unparen(w.Origin(df, e)).(*ast.BinaryExpr)
 			return ok && be.Op == token.SUB && isLenOf(be.X, dData) && (w.mentions(be.Y, bs) || func() bool { v, isC := w.constInt(be.Y); return isC && v == 16 }())
 		}
 		if se.Low != nil && se.High == nil && cut(se.Low) {
@@ -1055,8 +1055,20 @@ func ruleR18_5(c *Check) {
 	cp := w.F("table.buildData.Copy")
 	okCp := false
 	cp.walk(func(n ast.Node) bool {
-		if rs, ok := n.(*ast.RangeStmt); ok && w.fieldOf(rs.X) == w.Field("table.buildData.blockList") {
-			okCp = true
+		switch x := n.(type) {
+		case *ast.RangeStmt:
+			if w.fieldOf(x.X) == w.Field("table.buildData.blockList") {
+				okCp = true
+			}
+		case *ast.ForStmt:
+			// for i := 0; i < len(bd.blockList); i++ { bl := bd.blockList[i] … }
+			if inc, ok := x.Post.(*ast.IncDecStmt); ok && inc.Tok == token.INC && x.Cond != nil && w.mentions(x.Cond, w.Field("table.buildData.blockList")) {
+				if as, ok := x.Init.(*ast.AssignStmt); ok && len(as.Rhs) == 1 {
+					if v, isC := w.constInt(as.Rhs[0]); isC && v == 0 {
+						okCp = true
+					}
+				}
+			}
 		}
 		return true
 	})
